@@ -81,6 +81,7 @@ package frame
 
 //@ func FrameV1.Clone
 //@   requires live(f) && f.builder != nil && f.pooledSlice != nil && len(f.pooledSlice) <= 65675
+//@   modifies nothing
 //@   ensures same-fields [C17]: result.messageIndex == f.messageIndex && result.authIndex == f.authIndex && result.appendixIndex == f.appendixIndex && result.src == f.src && result.dst == f.dst && result.recvLink == f.recvLink && result.builder == f.builder && result.psDataOffset == f.psDataOffset
 //@   ensures same-bytes [C17]: len(result.data) == len(f.data) && (forall i int :: 0 <= i && i < len(f.data) ==> result.data[i] == f.data[i])
 //@   ensures isolated [C17]: base(result.data) != base(f.data) && fresh(base(result.data)) && base(result.pooledSlice) == base(result.data)
